@@ -185,6 +185,8 @@ func (instr *InstrActions) Len() (n uint16) {
 }
 
 func (instr *InstrActions) MarshalBinary() (data []byte, err error) {
+	// the actions may have grown since they were added
+	instr.Length = instr.Len()
 	data, err = instr.InstrHeader.MarshalBinary()
 
 	b := make([]byte, 4)
